@@ -252,6 +252,14 @@ impl<'a> EbpfVmMbuff<'a> {
         let stack_usage = self.stack_verifier.stack_validate(prog)?;
         self.prog = Some(prog);
         self.stack_usage = Some(stack_usage);
+        #[cfg(not(windows))]
+        {
+            self.jit = None;
+        }
+        #[cfg(feature = "cranelift")]
+        {
+            self.cranelift_prog = None;
+        }
         Ok(())
     }
 
